@@ -396,6 +396,11 @@ class Kernel:
                 del content["execution_count"], content["status"]
                 await self.send(self.iopub_socket, "error", content, parent_header=msg["header"])
 
+                # as on the success path, stdout queued by the cell is sent before idle is reported
+                handshake_q = asyncio.Queue(0)
+                await self.housekeep_q.put(["handshake", handshake_q, 0])
+                await handshake_q.get()
+
                 content = {
                     "execution_state": "idle",
                 }
